@@ -139,7 +139,8 @@ PROPS = {
     'C12': dict(
         title='Value equality, hashing and ordering are mutually consistent',
         verus=[('u_eq', [r'^Value::<PartialEq>::eq$', r'^Ref::<PartialEq>::eq$', r'^Dict::partial_cmp$', r'^lemma_value_eq_same_kind$',
-                         r'^Value::is_(null|marker|remove|na)$'])],
+                         r'^Value::is_(null|marker|remove|na)$']),
+               ('u_hash', [r'^Value::hash$', r'^Ref::hash$', r'^lemma_value_eq_hash$'], dict(one_spelling=True))],
         kani=[dict(harness='k_number_laws', klass='complete', schema=['f64', 'f64', 'f64'], family='number-laws', target='Number eq/cmp/partial_cmp'),
               dict(harness='k_number_eq_hash', klass='complete', schema=['f64', 'f64'], family='number-hash', target='Number eq/hash'),
               dict(harness='k_number_units_cmp_eq', klass='complete', schema=['u8', 'u8', 'f64', 'f64'], family='number-units', target='Number cmp/eq with units'),
@@ -155,11 +156,15 @@ PROPS = {
                     'partial_cmp, when it answers, gives cmp\'s answer. '
                     'Proof (Verus) of the lifting through Value: the hand-written 18-arm Value::eq holds exactly when both values are of the same kind and '
                     'their payloads are equal (value_eq; kinds are disjoint under ==), with Ref compared by id only (real body), and Dict::partial_cmp is '
-                    'always Some of the total order.'),
+                    'always Some of the total order. Proof (Verus, unit u_hash) of the hashing half of the lifting: the real Value::hash feeds a Hasher '
+                    'exactly value_hs(v) -- the payload\'s own stream for each of the 18 kinds, nothing for Marker / Remove / Na -- and the real Ref::hash feeds '
+                    'the id only, never the display name; lemma_value_eq_hash then proves value_eq(a, b) ==> value_hs(a) == value_hs(b) for all values, given that '
+                    'equal payloads feed equal streams (Kani for Number and Coord; assumed of std / chrono / rustc derives for the rest). A failed value_hs clause '
+                    'alone pins one of many legal hashing schemes, so it is reported as a violation only with a witness from the equality-law enumerators.'),
         not_decided=('the payload equalities of Str/Uri/Symbol/XStr (derived, delegate to String), Date/Time/DateTime (chrono), List/Dict/Grid (std Vec / BTreeMap) are '
-                     'named but not decided (uninterpreted or assumed structural); the laws of Dict::cmp; Value::hash and the derived Ord of Value; rustc derives are assumed lexicographic/structural; '
+                     'named but not decided (uninterpreted or assumed structural); the laws of Dict::cmp; the derived Ord of Value; the payload Hash impls other than Number / Coord / Ref (std, chrono, rustc derives: assumed to respect ==); the Hasher is an abstract byte sink (Hasher::finish is assumed to be a function of the bytes fed); rustc derives are assumed lexicographic/structural; '
                      'units other than the three sampled shapes (Unit::eq/hash compare all fields bitwise).'),
-        technique='contract-based deductive verification: Kani complete symbolic harnesses over all f64 on the real trait impls + Verus postcondition on the real Value::eq',
+        technique='contract-based deductive verification: Kani complete symbolic harnesses over all f64 on the real trait impls + Verus postconditions on the real Value::eq, Value::hash and Ref::hash',
     ),
     'C02': dict(
         title='Hayson encode -> decode returns the original value',
